@@ -45,7 +45,8 @@ pub fn campaign(target: &str, seeds_dir: &str, dict: Option<&str>, runs_per_work
             .arg("-print_final_stats=1")
             .stdin(Stdio::null())
             .stdout(Stdio::null())
-            .stderr(Stdio::piped());
+            // to a file, not a pipe: a full pipe would make the workers run one after the other
+            .stderr(std::fs::File::create(format!("{}/stderr-{}.txt", base, w)).map(Stdio::from).unwrap_or_else(|_| Stdio::null()));
         if let Some(d) = dict {
             cmd.arg(format!("-dict={}", d));
         }
@@ -54,10 +55,10 @@ pub fn campaign(target: &str, seeds_dir: &str, dict: Option<&str>, runs_per_work
             Err(e) => c.notes.push(format!("cannot start {}: {}", bin, e)),
         }
     }
-    for (w, k, arts) in kids {
-        match k.wait_with_output() {
-            Ok(out) => {
-                let err = String::from_utf8_lossy(&out.stderr);
+    for (w, mut k, arts) in kids {
+        match k.wait() {
+            Ok(status) => {
+                let err = std::fs::read(format!("{}/stderr-{}.txt", base, w)).map(|b| String::from_utf8_lossy(&b).to_string()).unwrap_or_default();
                 let mut execs = None;
                 for l in err.lines() {
                     if let Some(v) = l.strip_prefix("stat::number_of_executed_units:") {
@@ -66,7 +67,7 @@ pub fn campaign(target: &str, seeds_dir: &str, dict: Option<&str>, runs_per_work
                 }
                 c.executions += execs.unwrap_or(0);
                 if execs.is_none() {
-                    c.notes.push(format!("worker {}: no final stats (exit {:?})", w, out.status.code()));
+                    c.notes.push(format!("worker {}: no final stats (exit {:?})", w, status.code()));
                 }
                 if let Ok(rd) = std::fs::read_dir(&arts) {
                     for e in rd.flatten() {
